@@ -81,6 +81,16 @@ class VOnce(Component):
     def up_cnt(): s.cnt <<= s.cnt + 1
 
 
+class VConsts(Component):
+  """several constant-tied wires next to (in whatever order the dump picks) input-driven nets of the same widths"""
+  def construct(s):
+    s.a = InPort(4); s.b = InPort(4); s.c = InPort(3)
+    s.k1 = Wire(4); s.k2 = Wire(4); s.k3 = Wire(4); s.k4 = Wire(3); s.k5 = Wire(3); s.k6 = Wire(4); s.k7 = Wire(4); s.k8 = Wire(3)
+    s.k1 //= 5; s.k2 //= 9; s.k3 //= 15; s.k4 //= 3; s.k5 //= 6; s.k6 //= 1; s.k7 //= 12; s.k8 //= 7
+    s.oa = OutPort(4); s.ob = OutPort(4); s.oc = OutPort(3)
+    s.oa //= s.a; s.ob //= s.b; s.oc //= s.c
+
+
 class VMany(Component):
   """more nets than there are one-character VCD identifiers (94); only a few of the inputs are driven"""
   def construct(s):
@@ -92,4 +102,4 @@ class VMany(Component):
 # ports driven symbolically (default: every top-level input)
 SYMBOLIC_PORTS = {'VMany': ['s.in_[0]', 's.in_[97]']}
 
-DESIGNS = {'VMany': VMany, 'VOnce': VOnce, 'VInc': VInc, 'VReg': VReg, 'VStruct': VStruct, 'VHier': VHier, 'VRegChain': VRegChain}
+DESIGNS = {'VMany': VMany, 'VOnce': VOnce, 'VConsts': VConsts, 'VInc': VInc, 'VReg': VReg, 'VStruct': VStruct, 'VHier': VHier, 'VRegChain': VRegChain}
